@@ -729,6 +729,30 @@ func c17(x *mon.Ctx) {
 			x.Sample(map[string]any{"history": names, "pre_existing_entries": h.Pre, "accepted_requests": res.accepted, "tsm_operations_logged": res.ops})
 		}
 	})
+	// the same requests with the library logging at verbosity 2 (every log argument it has is evaluated then): what a refused
+	// request leaves behind does not depend on how much is logged
+	x.AtVerbosity(2, func() {
+		var vi []int
+		for i, h := range hs {
+			if len(h.Reqs) <= 2 && i%3 == 0 || i%41 == 0 {
+				vi = append(vi, i)
+			}
+		}
+		x.Each(len(vi), func(k int) {
+			h := hs[vi[k]]
+			res := runRtmrHistory(h)
+			var names []string
+			for _, q := range h.Reqs {
+				names = append(names, q.String())
+			}
+			param := fmt.Sprintf("pre=%v byvalue=%v %s", h.Pre, h.ByValue, strings.Join(names, " ; "))
+			if res.problem != "" {
+				x.Violation("verbose/history", param, "with the library logging at verbosity 2: "+res.problem, "rtmr-history", h)
+			}
+			x.Note("verbose/history", param, res.accepted > 0, false, res.problem == "")
+		})
+		x.Require("verbose/history", 20, 100, len(vi))
+	})
 	extendToolRuns(x)
 	x.Require("history-with-faulty-lookup", 8, 40, nenv)
 	x.Require("history-len-1", 20, 300, 600)
